@@ -913,6 +913,11 @@ func perElementNilTested(vals []ssa.Value) bool {
 			if _, isDbg := ref.(*ssa.DebugRef); isDbg {
 				continue
 			}
+			if call, isCall := ref.(*ssa.Call); isCall {
+				if bi, ok := call.Call.Value.(*ssa.Builtin); ok && bi.Name() == "len" {
+					continue // the number of values says nothing about their presence
+				}
+			}
 			ia, ok := ref.(*ssa.IndexAddr)
 			if !ok || ia.X != v {
 				return false
